@@ -42,6 +42,14 @@ import (
 // ------------------------------------------------------------------------------------------
 // goroutine bookkeeping
 
+func vfC17B(b bool) string {
+	if b {
+		return "1"
+	}
+	return "0"
+}
+
+
 var vfC17GoidRe = regexp.MustCompile(`^goroutine (\d+) \[`)
 var vfC17StatesRe = regexp.MustCompile(`(?m)^goroutine (\d+) \[([^\]]+)\]:`)
 
